@@ -268,6 +268,20 @@ Fixpoint run_seq (static : bool) (g h : grid) (cur : option (arr val)) (cache : 
       end
   end.
 
+(** a relaying component between source (grid [g]) and consumer (grid [h]): its input declares grid
+    [m]; it describes the data it pushes on with the info its input's exchange came back with
+    (connector.in_infos, rule FromInput -- e.g. components.TimeTrigger), i.e. with grid [m]
+    (sdk/input.py exchange_info returns the input's merged info), so the chain is the link g -> m
+    followed by the link m -> h.  Conflicting grids stop the connect phase (FinamMetaDataError). *)
+Definition relay_deliver {A : Type} (g m h : grid) (d : arr A) : @lres A :=
+  match link_deliver g m d with
+  | LOk a => link_deliver m h a
+  | e => e
+  end.
+Definition relay_run (g m h : grid) (ds : list (list nat * list val)) : list ares :=
+  if negb (compatible m g) || negb (compatible h m) then [AErr 2]
+  else map (fun d => lres_ares (relay_deliver g m h (arr_of_list None (fst d) (snd d)))) ds.
+
 Definition gres_code (r : gres) : ares :=
   ACode (match r with
          | GB false => 0 | GB true => 1
@@ -287,7 +301,9 @@ Inductive c15_case : Type :=
 | CMethods (sg : gspec) (lg : layout) (sh : gspec) (lh : layout) (shape : list nat) (vals : list val)
 | CLink (sg : gspec) (lg : layout) (sh : gspec) (lh : layout) (shape : list nat) (vals : list val)
 | CLinkSeq (sg : gspec) (lg : layout) (sh : gspec) (lh : layout) (static : bool) (ops : list seq_op)
-| CGridSeq (grids : list (gspec * layout)) (ops : list gop).
+| CGridSeq (grids : list (gspec * layout)) (ops : list gop)
+| CRelay (sg : gspec) (lg : layout) (sm : gspec) (lm : layout) (sh : gspec) (lh : layout)
+    (ds : list (list nat * list val)).
 
 Definition c15_obs : Type := (list ares * list bool)%type.
 
@@ -319,6 +335,11 @@ Definition c15_model (c : c15_case) : option c15_obs :=
       match build sg lg, build sh lh with
       | Some g, Some h => Some (run_seq static g h None None ops, [])
       | _, _ => None
+      end
+  | CRelay sg lg sm lm sh lh ds =>
+      match build sg lg, build sm lm, build sh lh with
+      | Some g, Some m, Some h => Some (relay_run g m h ds, [])
+      | _, _, _ => None
       end
   | CGridSeq grids ops =>
       match build_all grids with
